@@ -52,9 +52,12 @@ def j5Item (M : Matcher) (s : Schema) (v : Scalar) : Bool :=
   | _, _ => false
 
 def Property.primaryKey (p : Property) : Bool :=
-  match p.schema.item with
-  | .key _ (some e) _ => (match e.typ with | .primary b => b | _ => false)
-  | _ => false
+  match p.schema with
+  | .map _ _ _ => false     -- values of a map are not the field's own key
+  | _ =>
+    match p.schema.item with
+    | .key _ (some e) _ => (match e.typ with | .primary b => b | _ => false)
+    | _ => false
 
 /-- required as declared; a primary key is always required -/
 def Property.effRequired (p : Property) : Bool := p.required || p.primaryKey
@@ -69,12 +72,14 @@ def Property.hasPresence (p : Property) (optPres : Bool) : Bool :=
   match p.schema with
   | .single s => s.isMessage || (optPres && p.explicitlyOptional)
   | .array _ _ _ => false
+  | .map _ _ _ => false
 
 /-- what the declaration says: `? type` (explicitlyOptional) makes absence distinguishable -/
 def Property.declaredPresence (p : Property) : Bool :=
   match p.schema with
   | .single s => s.isMessage || p.explicitlyOptional
   | .array _ _ _ => false
+  | .map _ _ _ => false
 
 /-- the meaning of the whole declaration for one candidate field value -/
 def j5Accepts (M : Matcher) (optPres : Bool) (p : Property) (v : FieldVal) : Bool :=
@@ -89,6 +94,13 @@ def j5Accepts (M : Matcher) (optPres : Bool) (p : Property) (v : FieldVal) : Boo
       optAll r.minItems (fun n => decide (n ≤ xs.length)) &&
       optAll r.maxItems (fun n => decide (xs.length ≤ n)) &&
       (!(r.uniqueItems == some true) || allDistinct xs)) &&
+    xs.all (j5Item M s)
+  -- a map value is given by the list of its values (keys are plain strings without rules)
+  | .map s rules _, .list xs =>
+    (!p.effRequired || !xs.isEmpty) &&
+    optAll rules (fun r =>
+      optAll r.minPairs (fun n => decide (n ≤ xs.length)) &&
+      optAll r.maxPairs (fun n => decide (xs.length ≤ n))) &&
     xs.all (j5Item M s)
   | _, _ => false
 
@@ -111,6 +123,7 @@ def WellTyped (optPres : Bool) (p : Property) (v : FieldVal) : Bool :=
   | .single _, .absent => p.hasPresence optPres
   | .single s, .single x => x.hasKind s
   | .array s _ _, .list xs => xs.all (·.hasKind s)
+  | .map s _ _, .list xs => xs.all (·.hasKind s)
   | _, _ => false
 
 /-! ## admissible declarations -/
@@ -148,6 +161,7 @@ def WFRules (p : Property) : Bool :=
   (match p.schema with
    | .array s (some r) _ => !(r.uniqueItems == some true && s.isMessage) && !p.explicitlyOptional
    | .array _ none _ => !p.explicitlyOptional
+   | .map _ _ _ => !p.explicitlyOptional
    | _ => true)
 
 end J5V.Rules
